@@ -141,33 +141,49 @@ mod verif_points {
         #[inline]
         pub(crate) fn store(&self, v: usize, o: Ordering) {
             pt("q.store", addr(self), v, 0);
-            self.deref().store(v, o)
+            self.deref().store(v, o);
+            // plain accesses that follow a publishing operation are a step of their own
+            pt("q.post", addr(self), v, 0);
         }
         #[inline]
         pub(crate) fn swap(&self, v: usize, o: Ordering) -> usize {
             pt("q.swap", addr(self), v, 0);
-            self.deref().swap(v, o)
+            let r = self.deref().swap(v, o);
+            pt("q.post", addr(self), v, 0);
+            r
         }
         #[inline]
         pub(crate) fn fetch_add(&self, v: usize, o: Ordering) -> usize {
             pt("q.rmw", addr(self), v, 1);
-            self.deref().fetch_add(v, o)
+            let r = self.deref().fetch_add(v, o);
+            pt("q.post", addr(self), v, 0);
+            r
         }
         #[inline]
         pub(crate) fn fetch_sub(&self, v: usize, o: Ordering) -> usize {
             pt("q.rmw", addr(self), v, 2);
-            self.deref().fetch_sub(v, o)
+            let r = self.deref().fetch_sub(v, o);
+            pt("q.post", addr(self), v, 0);
+            r
         }
         #[inline]
         pub(crate) fn compare_exchange(&self, c: usize, n: usize, s: Ordering, f: Ordering) -> Result<usize, usize> {
             pt("q.cas", addr(self), c, n);
-            self.deref().compare_exchange(c, n, s, f)
+            let r = self.deref().compare_exchange(c, n, s, f);
+            if r.is_ok() {
+                pt("q.post", addr(self), n, 0);
+            }
+            r
         }
         #[inline]
         pub(crate) fn compare_exchange_weak(&self, c: usize, n: usize, s: Ordering, f: Ordering) -> Result<usize, usize> {
             pt("q.cas", addr(self), c, n);
             // a verified run must not fail spuriously: use the strong form
-            self.deref().compare_exchange(c, n, s, f)
+            let r = self.deref().compare_exchange(c, n, s, f);
+            if r.is_ok() {
+                pt("q.post", addr(self), n, 0);
+            }
+            r
         }
     }
 
@@ -180,22 +196,33 @@ mod verif_points {
         #[inline]
         pub(crate) fn store(&self, v: *mut T, o: Ordering) {
             pt("q.store", addr(self), v as usize, 0);
-            self.deref().store(v, o)
+            self.deref().store(v, o);
+            pt("q.post", addr(self), v as usize, 0);
         }
         #[inline]
         pub(crate) fn swap(&self, v: *mut T, o: Ordering) -> *mut T {
             pt("q.swap", addr(self), v as usize, 0);
-            self.deref().swap(v, o)
+            let r = self.deref().swap(v, o);
+            pt("q.post", addr(self), v as usize, 0);
+            r
         }
         #[inline]
         pub(crate) fn compare_exchange(&self, c: *mut T, n: *mut T, s: Ordering, f: Ordering) -> Result<*mut T, *mut T> {
             pt("q.cas", addr(self), c as usize, n as usize);
-            self.deref().compare_exchange(c, n, s, f)
+            let r = self.deref().compare_exchange(c, n, s, f);
+            if r.is_ok() {
+                pt("q.post", addr(self), n as usize, 0);
+            }
+            r
         }
         #[inline]
         pub(crate) fn compare_exchange_weak(&self, c: *mut T, n: *mut T, s: Ordering, f: Ordering) -> Result<*mut T, *mut T> {
             pt("q.cas", addr(self), c as usize, n as usize);
-            self.deref().compare_exchange(c, n, s, f)
+            let r = self.deref().compare_exchange(c, n, s, f);
+            if r.is_ok() {
+                pt("q.post", addr(self), n as usize, 0);
+            }
+            r
         }
     }
 }
